@@ -1,7 +1,8 @@
 (** C01 — projection of the delivery model compared with the implementation
     (checks/c01.py): reply codes per position, and per store the tables
     mailboxes(id, name, uid_next), message_mailbox(id, message_id, mailbox_id,
-    uid) and messages(id, #header rows, #part rows) after every transaction.
+    uid) and messages(id, #header rows, #part rows, #part rows with a blob, #part rows
+    without octets) after every transaction.
     No proofs in this file. *)
 From Coq Require Import String Ascii List Bool ZArith.
 From Raven Require Import Base.GoStr Model.Store Model.Ops Model.Deliver Spec.DeliverSpec.
@@ -10,7 +11,8 @@ Local Open Scope Z_scope.
 
 Definition mv := (Z * str * Z)%type.          (* id, name, uid_next *)
 Definition lv := (Z * Z * Z * Z)%type.        (* id, message_id, mailbox_id, uid *)
-Definition gv := (Z * Z * Z)%type.            (* message id, header rows, part rows *)
+Definition gv := (Z * Z * Z * Z * Z)%type.    (* message id, header rows, part rows, part rows with a blob,
+                                                 part rows whose octets are nowhere *)
 Definition store_obs := (key * list mv * list lv * list gv)%type.
 (* configuration (folder, max_size, quota_enabled), the recipients CheckRecipientQuota refuses
    (measured from the databases), ACCEPTED recipients, message, its size *)
@@ -22,7 +24,8 @@ Definition mv_eqb (a b : mv) : bool :=
 Definition lv_eqb (a b : lv) : bool :=
   let '(i, m, b0, u) := a in let '(i', m', b', u') := b in (i =? i') && (m =? m') && (b0 =? b') && (u =? u').
 Definition gv_eqb (a b : gv) : bool :=
-  let '(i, h, p) := a in let '(i', h', p') := b in (i =? i') && (h =? h') && (p =? p').
+  let '(i, h, p, bl, lo) := a in let '(i', h', p', bl', lo') := b in
+  (i =? i') && (h =? h') && (p =? p') && (bl =? bl') && (lo =? lo').
 
 Definition subset {A} (eqb : A -> A -> bool) (a b : list A) : bool :=
   forallb (fun x => existsb (eqb x) b) a.
@@ -46,7 +49,7 @@ Definition store_agrees (w : world) (o : store_obs) : Z :=
   | Some u =>
     if negb (same_set mv_eqb mbs (map (fun m => (mb_id m, mb_name m, mb_next m)) (mboxes (us u)))) then 2
     else if negb (same_set lv_eqb lks (map (fun l => (lk_id l, lk_msg l, lk_mbox l, lk_uid l)) (links (us u)))) then 3
-    else if negb (subset gv_eqb (map (fun r => (m_id r, Z.of_nat (m_hdrs r), Z.of_nat (m_parts r))) (umsgs u)) gs
+    else if negb (subset gv_eqb (map (fun r => (m_id r, Z.of_nat (m_hdrs r), Z.of_nat (m_parts r), Z.of_nat (m_blob r), Z.of_nat (m_lost r))) (umsgs u)) gs
                   && (Z.of_nat (length gs) =? next_msg (us u) - 1)) then 4
     else 0
   end.
